@@ -83,8 +83,6 @@ fn role(name: &str, sink: &mut Sink) {
             "has_role"
         } else if rs.disable_role(name).is_err() {
             "disable_role"
-        } else if rs.has_role(&who, name).is_ok() {
-            "has_role_after_disable" // a disabled role must not answer
         } else {
             ""
         };
